@@ -224,8 +224,13 @@ def gen_field_ty(rng, c, generic, max_depth):
 
 def gen_fields(rng, c, generic, shape, max_depth, nmin=1, nmax=8, force_param=False):
     fs = []
+    # one draw in five: all fields of one type (>= 3 of them), so that a permutation of the
+    # fields in the generated code still type-checks and can only be seen in the data
+    same = gen_field_ty(rng, c, generic, max_depth) if rng.random() < 0.2 else None
+    if same is not None:
+        nmin = min(max(nmin, 3), nmax)
     for _ in range(rng.randint(nmin, nmax)):
-        t = gen_field_ty(rng, c, generic, max_depth)
+        t = same if same is not None else gen_field_ty(rng, c, generic, max_depth)
         attrs = []
         if is_plain(t) and rng.random() < 0.35:
             attrs.append(("skip",))
